@@ -32,9 +32,9 @@ def _run(ctx, chk):
     chk.assumptions = ["DashMap behaves as a map, SegQueue as a FIFO", "text/JSON forms: see C16/C17 for the codec tables"]
     chk.not_decided = ["pop order over arbitrary sequences beyond the primitives' shape"]
     Q = QueueAnalysis(ctx)
-    Q.rule_push(chk, "P1", "P1")
+    Q.rule_push(chk, "P1", None)    # single-threaded property: the order of insert and ticket append is not observable
     Q.rule_pop(chk, "P1", "P1", "K4", seq=True)
-    Q.rule_remove_find(chk, "K4")
+    Q.rule_remove_find(chk, "K4", seq=True)
     Q.rule_constructors(chk, "P2")
     Q.rule_one_store(chk, "Y1")
     Q.rule_to_vec(chk, "V2")
